@@ -545,11 +545,16 @@ LayoutCoreAlphabet ==  \* C02: the core of LayoutAlphabet, small enough for all 
 LayoutThreeAlphabet == \* C02: three linked files of one or two statements each, the earlier ones free of anything that has to wait
   { I0("nop"), By(<< Num(1), Num(2) >>), Lab("a"), W(<<A, Dot>>) }
 LayoutIncAlphabet ==   \* C02: an include whose file name is only known after a later symbol (the directive stays pending; everything behind it moves)
-  { IncC(2, "sx"), IncC(1, "sy"), Const("sx", Num(50)), Const("sy", Num(49)), Lab("a"), W(<<A, Dot>>), I1("movr", A), By(<< Num(1) >>), [k |-> "even"], Inc(2) }
+  { IncC(2, "sx"), IncC(1, "sy"), Const("sx", Num(50)), Const("sy", Num(49)), Lab("a"), W(<<A, Dot>>), I1("movr", A), By(<< Num(1) >>), [k |-> "even"], Inc(2), Inc(5) }
 LayoutIncFiles == << [name |-> "i1", body |-> << Lab("x"), W(<< Sym("x"), Dot >>), By(<< Num(7) >>) >>],
                      [name |-> "i2", body |-> << W(<< Sym("y") >>), [k |-> "ascii", bs |-> <<79, 75, 33>>], Lab("y"), By(<< Bin("-", Dot, Sym("y")) >>) >>],
                      [name |-> "i3", body |-> << By(<< Num(3) >>), Inc(2), [k |-> "even"], Lab("z"), W(<< Sym("z"), Dot >>) >>],          \* include depth 2
-                     [name |-> "i4", body |-> << Lab("w"), Inc(3), I1("movr", Sym("w")), Blkb(Num(1)) >>] >>                               \* include depth 3
+                     [name |-> "i4", body |-> << Lab("w"), Inc(3), I1("movr", Sym("w")), Blkb(Num(1)) >>],                                 \* include depth 3
+                     \* i5: starts with a block whose length depends on where the file stands, and has a block that is assembled late
+                     \* (its count is defined below it) with statements that do and do not look at '.'
+                     [name |-> "i5", body |-> << Rep(1, << By(<< Num(1) >>), [k |-> "even"] >>),
+                                                 RepC(2, "cnt", << By(<< Num(170) >>), [k |-> "even"], W(<< Dot >>), By(<< Num(187) >>) >>),
+                                                 Const("cnt", Num(2)) >>] >>
 
 (* ------------------------------------------------------------------ TLC writes the program *)
 Stmts(fs)  == Concat(fs)
